@@ -90,7 +90,7 @@ func NewFastHTTPHandler(h http.Handler) fasthttp.RequestHandler {
 			// Buffered, no Flush() nor Hijack().
 			ctx.SetStatusCode(w.status())
 			haveContentType := false
-			for k, vv := range w.Header() {
+			for k, vv := range w.committedHeader() {
 				if k == fasthttp.HeaderContentType {
 					haveContentType = true
 				}
@@ -119,7 +119,7 @@ func NewFastHTTPHandler(h http.Handler) fasthttp.RequestHandler {
 			ctx.SetStatusCode(w.status())
 
 			haveContentType := false
-			for k, vv := range w.Header() {
+			for k, vv := range w.committedHeader() {
 				// No Content-Length when streaming.
 				if k == fasthttp.HeaderContentLength {
 					continue
@@ -201,6 +201,7 @@ const (
 type writer struct {
 	ctx        *fasthttp.RequestCtx
 	h          http.Header
+	frozen     http.Header // snapshot of h taken when the header is committed
 	statusCode atomic.Int64
 
 	mu           sync.Mutex
@@ -216,8 +217,9 @@ type writer struct {
 
 	streamReady chan struct{}
 
-	flushOnce sync.Once
-	closeOnce sync.Once
+	commitOnce sync.Once
+	flushOnce  sync.Once
+	closeOnce  sync.Once
 }
 
 func acquireWriter(ctx *fasthttp.RequestCtx) *writer {
@@ -255,10 +257,35 @@ func (w *writer) WriteHeader(code int) {
 		// The adaptor has no way to send them, so they are ignored.
 		return
 	}
-	w.statusCode.CompareAndSwap(0, int64(code))
+	w.commit(code)
+}
+
+// commit fixes the status code and snapshots the header map the first time it
+// is called (first non-informational WriteHeader, first Write or first Flush),
+// like net/http does: later WriteHeader calls and later changes to Header()
+// don't reach the client.
+//
+// code is 0 when the handler writes or flushes without calling WriteHeader,
+// status() then picks the default status code.
+func (w *writer) commit(code int) {
+	w.commitOnce.Do(func() {
+		w.statusCode.Store(int64(code))
+		w.frozen = w.h.Clone()
+	})
+}
+
+// committedHeader returns the header map to send: the snapshot taken by commit,
+// or the live map when the handler returned without committing the header.
+func (w *writer) committedHeader() http.Header {
+	if w.frozen != nil {
+		return w.frozen
+	}
+	return w.h
 }
 
 func (w *writer) Write(p []byte) (int, error) {
+	w.commit(0)
+
 	select {
 	case <-w.streamReady:
 		return w.pw.Write(p)
@@ -283,6 +310,7 @@ func (w *writer) Write(p []byte) (int, error) {
 }
 
 func (w *writer) Flush() {
+	w.commit(0)
 	w.flushOnce.Do(func() {
 		select {
 		case w.modeCh <- modeFlushed:
